@@ -150,6 +150,39 @@ pub fn run_fusedev_with(req: &[u8], cap: usize, fd: RawFd, call: impl FnOnce(Rea
     (ret, canary_ok)
 }
 
+/// As `run_fusedev_with`, but Reader and Writer share ONE buffer, exactly as the production `FuseChannel::get_request`
+/// hands them out ("we assume Reader won't be used anymore once we start to write to the Writer"): a handler that
+/// writes reply bytes before it has finished reading the request corrupts its own input here, as it would in production.
+pub fn run_fusedev_aliased(req: &[u8], cap: usize, fd: RawFd, call: impl FnOnce(Reader<'_, ()>, Writer<'_, ()>) -> String) -> (String, bool) {
+    const PAD: usize = 256;
+    let size = cap.max(req.len());
+    let mut wall = vec![CANARY; size + 2 * PAD];
+    for b in wall[PAD..PAD + size].iter_mut() {
+        *b = POISON;
+    }
+    wall[PAD..PAD + req.len()].copy_from_slice(req);
+    let ret = {
+        let base = unsafe { wall.as_mut_ptr().add(PAD) };
+        // two views of the same memory, like the production channel
+        let rbuf: &mut [u8] = unsafe { std::slice::from_raw_parts_mut(base, req.len()) };
+        let wbuf: &mut [u8] = unsafe { std::slice::from_raw_parts_mut(base, cap) };
+        let res = std::panic::catch_unwind(std::panic::AssertUnwindSafe(|| {
+            let reader = match Reader::<()>::from_fuse_buffer(FuseBuf::new(rbuf)) {
+                Ok(r) => r,
+                Err(e) => return format!("err:reader:{}", err_variant(&e)),
+            };
+            let writer = match FuseDevWriter::<()>::new(fd, wbuf) {
+                Ok(w) => w,
+                Err(e) => return format!("err:writer:{}", err_variant(&e)),
+            };
+            call(reader, Writer::FuseDev(writer))
+        }));
+        res.unwrap_or_else(|_| "panic".to_string())
+    };
+    let canary_ok = wall[..PAD].iter().all(|b| *b == CANARY) && wall[PAD + size..].iter().all(|b| *b == CANARY);
+    (ret, canary_ok)
+}
+
 pub fn err_name<E: std::fmt::Debug>(e: &E) -> String {
     err_variant(e)
 }
